@@ -163,7 +163,33 @@ def gen_gateway(repo, out):
     out.append('Definition gen_gw_storage : list string := %s.' % strlist(sorted(set(storage_mappers(srcs)))))
     out.append('Definition gen_gw_events : list string := %s.' % strlist(events(read(repo, 'gateway/src/events.rs'))))
 
-EXTRA = [gen_vectors, gen_gateway]
+def const_expr(e):
+    e = e.strip().replace('_', '')
+    if not re.fullmatch(r'[0-9a-fxb*+\s()]+', e):
+        raise GenError(f'unsupported constant expression {e!r}')
+    return int(eval(e, {'__builtins__': {}}))
+
+def gen_token_manager(repo, out):
+    fl = read(repo, 'token-manager/src/flow_limit.rs')
+    m = need(re.search(r'const EPOCH_TIME: u64 = ([^;]+);', fl), 'EPOCH_TIME')
+    out.append('Definition gen_tm_epoch_time : N := %d.' % const_expr(m.group(1)))
+    m = need(re.search(r'let epoch = self\.blockchain\(\)\.get_block_timestamp\(\) / EPOCH_TIME;', fl), 'epoch = timestamp / EPOCH_TIME')
+    m = need(re.search(r'require!\(\s*&flow_to_add \+ flow_amount <= &flow_to_compare \+ &flow_limit\s*&& flow_amount <= &flow_limit,', fl), 'add_flow acceptance condition')
+    roles = read(repo, 'modules/operatable/src/roles.rs')
+    bits = re.findall(r'const (\w+) = (0b[01]+);', roles)
+    if not bits:
+        raise GenError('no role bits')
+    out.append('Definition gen_role_bits : list (string * N) := [%s]%%string.' % '; '.join('("%s", %d)' % (n, int(v, 2)) for n, v in bits))
+    c = read(repo, 'token-manager/src/constants.rs')
+    m = need(re.search(r'pub const DEFAULT_ESDT_ISSUE_COST: u64 = ([0-9_]+);', c), 'DEFAULT_ESDT_ISSUE_COST')
+    out.append('Definition gen_tm_issue_cost : N := %d.' % const_expr(m.group(1)))
+    srcs = ''.join(read(repo, f) for f in ['token-manager/src/lib.rs', 'token-manager/src/flow_limit.rs', 'token-manager/src/mintership.rs',
+                                           'modules/operatable/src/roles.rs', 'modules/operatable/src/operatable.rs'])
+    out.append('Definition gen_tm_storage : list string := %s.' % strlist(sorted(set(storage_mappers(srcs)))))
+    out.append('Definition gen_tm_events : list string := %s.' % strlist(sorted(set(events(srcs)))))
+    out.append('Definition gen_tm_endpoints : list string := %s.' % strlist(sorted(set(re.findall(r'#\[endpoint\((\w+)\)\]', srcs)) | set(re.findall(r'#\[endpoint\]\s*fn (\w+)', srcs)))))
+
+EXTRA = [gen_vectors, gen_gateway, gen_token_manager]
 
 if __name__ == '__main__':
     main()
